@@ -167,6 +167,8 @@ struct Sched
       pick = en[next_rand() % en.size()];
     choices.push_back(pick);
     nenabled.push_back((int)en.size());
+    Event ce = {pick, 0, (int)en.size(), 0}; // kind 0 = scheduling decision
+    events.push_back(ce);
     return pick;
   }
   // hand the processor to the chosen thread and wait until it comes back to self; G held via lk
